@@ -50,7 +50,12 @@ def make_cases(rng, tier, budget):
     for _ in range((15 if tier == "quick" else 150) * budget):
         c = g.template_case()
         b = [s for s in c["history"] if s[0] == "build"][0]
-        c["history"] = [["build", b[1], b[2]], ["build", b[1], b[2]], ["build", b[1], b[2]]]
+        lead = []
+        for s in c["history"]:
+            if s[0] != "mutate":
+                break
+            lead.append(s)
+        c["history"] = lead + [["build", b[1], b[2]], ["build", b[1], b[2]], ["build", b[1], b[2]]]
         out.append(c)
     return out
 
